@@ -446,6 +446,7 @@ theorem xstep_sound {f : Nat} {st st' : XSt α} {op : XOp α} {o : Obs α} (hp :
       (fun it ht => ⟨by simp [XIt.teeFree, ht], rfl⟩) hx
   | map i g => exact wrap i (.map g) (mapE g) (fun it ht => ⟨ht, rfl⟩) hx
   | filter i p => exact wrap i (.filter p) (filterE p) (fun it ht => ⟨ht, rfl⟩) hx
+  | skipBad i e => exact wrap i (fun _ => .src [.error e]) (fun _ => [.error e]) (fun it ht => ⟨rfl, rfl⟩) hx
   | nextAttr i =>
     simp only [xstep] at hx
     simp only [xspecStep]
